@@ -40,7 +40,7 @@ static int corpus_load(void) {
     corpus_loaded = 1; return 0;
 }
 
-enum { CP_CROSS, CP_EMAIL, CP_LOCAL, CP_DOMAIN, CP_LITERAL, CP_TLD, CP_IDN, CP_BYTES, CP_LONG, CP_LONGIDN, CP_ALTDOT, CP_LABELLEN, CP_MAXLIT, CP_N };
+enum { CP_CROSS, CP_EMAIL, CP_LOCAL, CP_DOMAIN, CP_LITERAL, CP_TLD, CP_IDN, CP_BYTES, CP_LONG, CP_LONGIDN, CP_ALTDOT, CP_LABELLEN, CP_MAXLIT, CP_SCALARS, CP_N };
 static const char *corpus_name(int i) {
     static const char *n[] = {
         "cross: all strings over {a 1 . - @ [ ] : SP ( 0x01 #}",
@@ -55,7 +55,8 @@ static const char *corpus_name(int i) {
         "longidn: U-label domains of 1-7 labels x 8-56 letters, shared 255-byte prefixes back to back, soft-hyphen padding to 3 KiB",
         "altdot: reserved names and table rows spelled with U+3002/U+FF0E/U+FF61 dots and fullwidth letters",
         "labellen: labels of 58-70 characters with '_' / '-' tails in every position",
-        "maxlit: maximal-length valid address literals followed by junk inside the brackets" };
+        "maxlit: maximal-length valid address literals followed by junk inside the brackets",
+        "scalars: every non-ASCII Unicode scalar value as an atom character, quoted and in a domain label" };
     return n[i];
 }
 static int corpus_N(int i) {
@@ -83,6 +84,7 @@ static long corpus_shards(int i) {
     case CP_ALTDOT: return 8 + 1;
     case CP_LABELLEN: return 13;
     case CP_MAXLIT: return 6;
+    case CP_SCALARS: return 0x110000 / 0x1000;
     }
     return 0;
 }
@@ -149,6 +151,14 @@ static void corpus_run(int ph, long shard, emit_fn emit, void *arg) {
             else { c_emit_str(emit, arg, "x@%s", C_RES[ri]); char up[32]; snprintf(up, sizeof up, "%s", C_RES[ri]); up[0] = (char)toupper((unsigned char)up[0]); c_emit_str(emit, arg, "x@%s", up);
                    c_emit_str(emit, arg, "x@%sA", C_RES[ri]); c_emit_str(emit, arg, "x@x%s", C_RES[ri]); c_emit_str(emit, arg, "x@a.%ss", C_RES[ri]); c_emit_str(emit, arg, "x@%s.", C_RES[ri]); }
         } else {
+            for (int ri = 0; ri < 8; ri++) for (int root = 0; root < 2; root++) { const char *dot = root ? "." : "";
+                c_emit_str(emit, arg, "x@mail.%s.com%s", C_RES[ri], dot); c_emit_str(emit, arg, "x@www.%s.org%s", C_RES[ri], dot); c_emit_str(emit, arg, "x@a.b.%s%s", C_RES[ri], dot);
+                c_emit_str(emit, arg, "x@%s.com.au%s", C_RES[ri], dot); c_emit_str(emit, arg, "x@a.b.c.%s%s", C_RES[ri], dot); c_emit_str(emit, arg, "x@%s.%s%s", C_RES[ri], C_RES[(ri + 1) % 8], dot);
+                c_emit_str(emit, arg, "x@abcdefg.%s.zzzzq%s", C_RES[ri], dot); c_emit_str(emit, arg, "x@%s.a%s", C_RES[ri], dot); }
+            /* reserved labels extended by 1-3 characters at either end */
+            { static const char EXT[] = "aly1-x"; for (int ri = 0; ri < 5; ri++) for (int a = 0; a < 6; a++) for (int b = -1; b < 6; b++) for (int c = -1; c < (b < 0 ? 0 : 6); c++) {
+                char e[8]; int l = 0; e[l++] = EXT[a]; if (b >= 0) e[l++] = EXT[b]; if (c >= 0) e[l++] = EXT[c]; e[l] = 0;
+                c_emit_str(emit, arg, "x@m.%s%s", C_RES[ri], e); c_emit_str(emit, arg, "x@%s%s", C_RES[ri], e); if (e[0] != '-') c_emit_str(emit, arg, "x@m.%s%s", e, C_RES[ri]); } }
             static const char *const M[] = { "x@singlelabel", "x@a", "x@a.b", "x@com", "x@a.com.", "x@1.2", "x@a.123", "x@123.com", "x@a-.com", "x@a.c-m", "x@xn--p1ai", "x@xn--.com", "x@a.xn--p1ai", "x@a.XN--P1AI" };
             for (unsigned i = 0; i < sizeof M / sizeof M[0]; i++) c_emit_str(emit, arg, "%s", M[i]);
         }
@@ -243,13 +253,29 @@ static void corpus_run(int ph, long shard, emit_fn emit, void *arg) {
     } break;
     case CP_LABELLEN: {
         int len = 58 + (int)shard;       /* 58..70 */
+        if (shard == 0) for (int big = 100; big <= 1600; big *= 2) { static char L[1700]; memset(L, 'q', (size_t)big); L[big] = 0;
+            c_emit_str(emit, arg, "x@example.%s", L); c_emit_str(emit, arg, "x@a.%s", L); c_emit_str(emit, arg, "x@%s.example.org", L); c_emit_str(emit, arg, "x@%s", L); }
         static const char *const SHAPE[] = { "", "_", "__", "____", "-", "-a", "_a", "a_", "1", "-_" };   /* tail of the label */
         for (unsigned sh = 0; sh < sizeof SHAPE / sizeof SHAPE[0]; sh++) {
             char lab[96]; int tl = (int)strlen(SHAPE[sh]); if (tl > len) continue;
             for (int i = 0; i < len - tl; i++) lab[i] = (char)('a' + i % 26); memcpy(lab + len - tl, SHAPE[sh], (size_t)tl); lab[len] = 0;
             c_emit_str(emit, arg, "x@%s.com", lab); c_emit_str(emit, arg, "x@a.%s", lab); c_emit_str(emit, arg, "x@a.%s.com", lab); c_emit_str(emit, arg, "x@%s", lab); c_emit_str(emit, arg, "x@a.%s.", lab);
+            c_emit_str(emit, arg, "x@example.%s", lab); c_emit_str(emit, arg, "x@a.EXAMPLE.%s.", lab); c_emit_str(emit, arg, "x@abcdefg.%s", lab); c_emit_str(emit, arg, "x@%s.test", lab); c_emit_str(emit, arg, "x@%s.example.com", lab);
             /* the special character exactly at the 64th position of a longer label */
             if (len >= 65) for (const char *sp = "_-"; *sp; sp++) { for (int i = 0; i < len; i++) lab[i] = (char)('a' + i % 26); lab[63] = *sp; lab[len] = 0; c_emit_str(emit, arg, "x@%s.com", lab); c_emit_str(emit, arg, "x@a.%s", lab); }
+        }
+    } break;
+    case CP_SCALARS: {
+        unsigned long lo = (unsigned long)shard * 0x1000, hi = lo + 0x1000;
+        for (unsigned long cp = lo; cp < hi; cp++) {
+            if (cp < 0x80 || (cp >= 0xd800 && cp <= 0xdfff)) continue;
+            char u[8]; int l = 0;
+            if (cp < 0x800) { u[l++] = (char)(0xc0 | (cp >> 6)); u[l++] = (char)(0x80 | (cp & 0x3f)); }
+            else if (cp < 0x10000) { u[l++] = (char)(0xe0 | (cp >> 12)); u[l++] = (char)(0x80 | ((cp >> 6) & 0x3f)); u[l++] = (char)(0x80 | (cp & 0x3f)); }
+            else { u[l++] = (char)(0xf0 | (cp >> 18)); u[l++] = (char)(0x80 | ((cp >> 12) & 0x3f)); u[l++] = (char)(0x80 | ((cp >> 6) & 0x3f)); u[l++] = (char)(0x80 | (cp & 0x3f)); }
+            u[l] = 0;
+            c_emit_str(emit, arg, "a%sb@ok.com", u);
+            if (CORPUS_DEEP || (cp & 0xf) == 0xe || cp < 0x3000) { c_emit_str(emit, arg, "\"%s\"@ok.com", u); c_emit_str(emit, arg, "x@%s.com", u); }
         }
     } break;
     case CP_MAXLIT: {
